@@ -3,6 +3,7 @@ package props
 import (
 	"go/token"
 	"go/types"
+	"sort"
 	"strings"
 
 	"verif/checker/internal/an"
@@ -150,39 +151,102 @@ func c09(c *Ctx) {
 			r.Check(op.domain == "echoed", "R09.K", key, site, "looked up under a key of domain '"+op.domain+"' (must be an id the server echoes: req_msg_id / bad_msg_id) — the msg_id of a received message never equals a request id, so the entry is never found")
 		}
 	}
-	// ---- R09.O: register before writing ----------------------------------------------------------
-	r.Rule("R09.O", "the waiter (and its decoder hints) is registered before the request is written: an answer processed right after the write must find it", 2)
-	if sp := c.fn("R09.O", load.RootMod, "*MTProto", "sendPacket"); sp != nil {
-		var write ssa.Instruction
-		for _, cs := range an.Calls(sp) {
-			if strings.HasSuffix(cs.Name, "transport.Transport).WriteMsg") {
-				write = cs.Instr
-			}
+	// ---- R09.L: lock discipline of the two tables -------------------------------------------------------
+	r.Rule("R09.L", "the waiter and hint tables are maps shared by the callers and the receive loop: every write of the map (insert, delete, replace) is inside the exclusive Lock section of the table's mutex, every read inside a Lock or RLock section", 8)
+	for _, tbl := range []string{"SyncIntObjectChan", "SyncIntReflectTypes"} {
+		named, _ := c.P.TypeOf(load.UtilsPkg, tbl)
+		if named == nil {
+			r.Undecide("R09.L", "locks:"+tbl, "", "type not found")
+			continue
 		}
-		if write == nil {
-			r.Undecide("R09.O", "register-before-write", c.pos(sp.Pos()), "WriteMsg call not found in sendPacket")
-		} else {
-			for _, tbl := range []string{"SyncIntObjectChan", "SyncIntReflectTypes"} {
-				adds := an.CallsNamed(sp, "(*"+load.UtilsPkg+"."+tbl+").Add")
-				if len(adds) == 0 {
-					r.Violate("R09.O", "register-before-write:"+tbl, c.pos(sp.Pos()), "sendPacket does not register in "+tbl)
+		for _, f := range c.P.MethodsOf(load.UtilsPkg, tbl) {
+			if len(f.Blocks) == 0 {
+				continue
+			}
+			// only methods somebody calls (Keys() lost its last caller with the targeted notification)
+			called := false
+			for g := range c.P.AllFunctions() {
+				if !c.P.InRepo(g) || g == f {
 					continue
 				}
-				ok := true
-				why := ""
-				for _, a := range adds {
-					// the registration must be able to precede the write and must never follow it
-					if !an.InstrDominates(a.Instr, write) && !precedesOnSomePath(a.Instr, write) {
-						ok, why = false, "the registration at "+c.pos(a.Pos())+" cannot precede the write at "+c.pos(write.Pos())
-					}
-					if follows(write, a.Instr) {
-						ok, why = false, "the registration at "+c.pos(a.Pos())+" happens after the write at "+c.pos(write.Pos())+": an answer that is processed in between finds no waiter, is dropped with 'not found', and the caller blocks for ever"
+				for _, cs := range an.Calls(g) {
+					if an.StaticCallee(cs.Common) == f {
+						called = true
 					}
 				}
-				r.Check(ok, "R09.O", "register-before-write:"+tbl, c.pos(adds[0].Pos()), why)
+			}
+			if !called {
+				continue
+			}
+			ex := an.LockScopes(f, tbl+".mutex")
+			sh := an.RLockScopes(f, tbl+".mutex")
+			isMap := func(v ssa.Value) bool { return strings.HasSuffix(tr.OriginString(v), "utils."+tbl+".m") }
+			nW, nR := 0, 0
+			for _, b := range f.Blocks {
+				for _, in := range b.Instrs {
+					kind := ""
+					switch x := in.(type) {
+					case *ssa.MapUpdate:
+						if isMap(x.Map) {
+							kind = "write"
+						}
+					case *ssa.Lookup:
+						if isMap(x.X) {
+							kind = "read"
+						}
+					case *ssa.Range:
+						if isMap(x.X) {
+							kind = "read"
+						}
+					case *ssa.Store:
+						if fa, ok := x.Addr.(*ssa.FieldAddr); ok && an.FieldName(fa.X.Type(), fa.Field) == "utils."+tbl+".m" {
+							kind = "write"
+						}
+					case *ssa.Call:
+						switch an.CalleeName(x.Common()) {
+						case "builtin:delete":
+							if isMap(x.Call.Args[0]) {
+								kind = "write"
+							}
+						case "builtin:len":
+							if isMap(x.Call.Args[0]) {
+								kind = "read"
+							}
+						}
+					}
+					if kind == "" {
+						continue
+					}
+					covered := false
+					for _, sc := range ex {
+						if sc.Covers(in) {
+							covered = true
+						}
+					}
+					if kind == "read" {
+						nR++
+						for _, sc := range sh {
+							if sc.Covers(in) {
+								covered = true
+							}
+						}
+					} else {
+						nW++
+					}
+					key := sprintf("locks:%s.%s/%s#%d", tbl, f.Name(), kind, map[string]int{"read": nR, "write": nW}[kind])
+					what := "a read of the table's map outside any section of its mutex races with the writers"
+					if kind == "write" {
+						what = "a write of the table's map that is not inside the exclusive Lock section runs concurrently with the receive loop's lookups (under RLock two holders proceed at once): concurrent map read and map write"
+					}
+					r.Check(covered, "R09.L", key, c.pos(in.Pos()), what)
+				}
 			}
 		}
 	}
+
+	// ---- R09.O: register before writing ----------------------------------------------------------
+	r.Rule("R09.O", "the waiter (and its decoder hints) is registered before the request is written: an answer processed right after the write must find it", 2)
+	c.registerBeforeWrite("R09.O")
 
 	// ---- R09.D ----------------------------------------------------------------------------------
 	if w := c.fn("R09.D", load.RootMod, "*MTProto", "writeRPCResponse"); w != nil {
@@ -428,6 +492,10 @@ func c11(c *Ctx) {
 		}
 	}
 
+	// ---- R11.X: a waiter channel is never closed by the machinery that sends on it -------------------------
+	r.Rule("R11.X", "no waiter channel is closed by the table or the receive path: the retry marker (forget, then send) and rpc results are sent on channels taken from the table, and a send on a closed channel panics in the receive loop", 1)
+	c.noWaiterClose("R11.X")
+
 	// ---- R11.W: a channel that gets a synthetic answer is not also registered ----------------------
 	r.Rule("R11.W", "a waiter is registered only when its caller will be reading: no path of sendPacket both spawns the synthetic answer (go resp <- …) and registers the same channel, otherwise the marker sent to it on rotation blocks the receive loop for ever", 1)
 	if sp := c.fn("R11.W", load.RootMod, "*MTProto", "sendPacket"); sp != nil {
@@ -470,6 +538,9 @@ func c11(c *Ctx) {
 					}
 					nW++
 					both := a.Block == g.Block() || blockReaches(a.Block, g.Block()) || blockReaches(g.Block(), a.Block)
+					if both && exclusiveGuards(sp, a.Block, g.Block(), tr) {
+						both = false // the two sites sit behind opposite outcomes of the same pure test
+					}
 					r.Check(!both, "R11.W", sprintf("synthetic-answer-not-registered#%d", nW), c.pos(a.Pos()),
 						"the channel that receives the synthetic answer at "+c.pos(g.Pos())+" is registered on the same path: its caller reads once and leaves, a later send to it (retry marker, rpc_result) never returns")
 				}
@@ -540,6 +611,117 @@ func sameChannel(a, b ssa.Value) bool {
 	}
 	if ok2 && lb.Op == token.MUL && lb.X == a {
 		return true
+	}
+	return false
+}
+
+// noWaiterClose: every close() of a chan tl.Object in the repository must be of a channel that did not come out of
+// the waiter table.
+func (c *Ctx) noWaiterClose(rule string) {
+	r := c.R
+	tr := an.NewTracer()
+	n := 0
+	var fns []*ssa.Function
+	for f := range c.P.AllFunctions() {
+		if c.P.InRepo(f) && f.Synthetic == "" && !strings.Contains(load.FuncPkgPath(f), "/examples/") {
+			fns = append(fns, f)
+		}
+	}
+	sort.Slice(fns, func(i, j int) bool { return fns[i].String() < fns[j].String() })
+	for _, f := range fns {
+		k := 0
+		for _, cs := range an.CallsNamed(f, "builtin:close") {
+			if len(cs.Common.Args) != 1 || !strings.Contains(cs.Common.Args[0].Type().String(), "tl.Object") {
+				continue
+			}
+			n++
+			k++
+			o := tr.OriginString(cs.Common.Args[0])
+			fromTable := strings.Contains(o, "utils.SyncIntObjectChan.m") || strings.Contains(o, "SyncIntObjectChan).Get") || strings.Contains(o, "MTProto.responseChannels")
+			r.Check(!fromTable, rule, sprintf("close:%s#%d", an.ShortName(f), k), c.pos(cs.Pos()),
+				"close of a waiter channel ("+simplifyOrigin(o)+"): the handlers forget an entry and then send on its channel")
+		}
+	}
+	if n == 0 {
+		r.Hold(rule, "close:none", "", "no close() of a chan tl.Object anywhere in the repository")
+	}
+}
+
+// registerBeforeWrite: R09.O (also R16.O: an answer that finds no waiter ends in the loop's fatal arm).
+func (c *Ctx) registerBeforeWrite(rule string) {
+	r := c.R
+	if sp := c.fn(rule, load.RootMod, "*MTProto", "sendPacket"); sp != nil {
+		var write ssa.Instruction
+		for _, cs := range an.Calls(sp) {
+			if strings.HasSuffix(cs.Name, "transport.Transport).WriteMsg") {
+				write = cs.Instr
+			}
+		}
+		if write == nil {
+			r.Undecide(rule, "register-before-write", c.pos(sp.Pos()), "WriteMsg call not found in sendPacket")
+		} else {
+			for _, tbl := range []string{"SyncIntObjectChan", "SyncIntReflectTypes"} {
+				adds := an.CallsNamed(sp, "(*"+load.UtilsPkg+"."+tbl+").Add")
+				if len(adds) == 0 {
+					r.Violate(rule, "register-before-write:"+tbl, c.pos(sp.Pos()), "sendPacket does not register in "+tbl)
+					continue
+				}
+				ok := true
+				why := ""
+				for _, a := range adds {
+					// the registration must be able to precede the write and must never follow it
+					if !an.InstrDominates(a.Instr, write) && !precedesOnSomePath(a.Instr, write) {
+						ok, why = false, "the registration at "+c.pos(a.Pos())+" cannot precede the write at "+c.pos(write.Pos())
+					}
+					if follows(write, a.Instr) {
+						ok, why = false, "the registration at "+c.pos(a.Pos())+" happens after the write at "+c.pos(write.Pos())+": an answer that is processed in between finds no waiter, is dropped with 'not found', and the caller blocks for ever"
+					}
+				}
+				r.Check(ok, rule, "register-before-write:"+tbl, c.pos(adds[0].Pos()), why)
+			}
+		}
+	}
+}
+
+// exclusiveGuards: block x is reachable only through one outcome of a call f(args…) and block y only through the
+// opposite outcome of a call of the same function with the same arguments (if isNullable(req) {…} … if
+// !isNullable(req) {…}): no run executes both.
+func exclusiveGuards(fn *ssa.Function, x, y *ssa.BasicBlock, tr *an.Tracer) bool {
+	type g struct {
+		name string
+		args string
+		out  bool
+	}
+	guardsOf := func(b *ssa.BasicBlock) []g {
+		var out []g
+		for _, i := range an.Ifs(fn) {
+			cd, ok := an.Classify(i)
+			if !ok || !strings.HasPrefix(cd.Kind, "call:") {
+				continue
+			}
+			call, ok := an.StripBoolWrappers(i.Cond).(*ssa.Call)
+			if !ok {
+				continue
+			}
+			var as []string
+			for _, a := range call.Call.Args {
+				as = append(as, tr.OriginString(a))
+			}
+			for _, outcome := range []bool{true, false} {
+				// b unreachable when the edge for this outcome is cut → b requires this outcome
+				if !an.Reach(fn, map[an.Edge]bool{cd.EdgeWhen(outcome): true})[b] {
+					out = append(out, g{cd.Kind, strings.Join(as, ";"), outcome})
+				}
+			}
+		}
+		return out
+	}
+	for _, a := range guardsOf(x) {
+		for _, b := range guardsOf(y) {
+			if a.name == b.name && a.args == b.args && a.out != b.out {
+				return true
+			}
+		}
 	}
 	return false
 }
